@@ -19,6 +19,10 @@ fn rank_label(c: RankClass) -> &'static str {
 
 fn run<T: Sc>(case: &TrajCase) -> Check {
     let mut out = Outcome::default();
+    // the complex-valued companion problem (varpro's problems are generic over ComplexField)
+    if let Some(cc) = &case.cplx {
+        super::cplx::check(cc, super::cplx::Claim::Coefficients, &mut out)?;
+    }
     let eps = effective_eps::<T>(case.base.eps);
     let mut nontrivial = false;
     let mut classes: Vec<String> = vec![];
